@@ -356,13 +356,14 @@ func runC13(c *mon.Ctx) {
 			}
 		}
 		c.Count("read_back", 1)
+		if len(stream) <= 60 && nonCh > 0 && len(want) > 1 {
+			c.Sample("recording", map[string]any{"stream_sent": mon.Hex(stream), "chunks": len(chunks), "gaps_ms": head32i(deltas, 12), "resolution": res, "bpm": bpm,
+				"channel_messages_expected": len(want), "recorded_track": trackList(tr), "non_channel_messages_in_stream": nonCh})
+		}
 	}
 
 	c.Each("track-recordings", c.N(10_000, 1_500_000), func(i int64, r *mon.Rand) {
 		record(r, fmt.Sprintf("track-%d", i), 0)
-		if i < 1 {
-			c.Sample("recording", "Track.RecordFrom on a testdrv loopback; see rule")
-		}
 	})
 	// long sessions: many near-maximal gaps, the cumulative position passes 2^32 ticks
 	c.Each("long-sessions", c.N(24, 600), func(i int64, r *mon.Rand) {
